@@ -392,7 +392,11 @@ func orAlternatives(t *rapid.T, n *model.Node, o ScalarOpts, label string) []mod
 			}
 		}
 	}
-	// the same type name twice is refused for a reason that has nothing to do with values (1303)
+	// (the same name twice used to be refused with 1303 - a false recursion alarm, repaired; one case in
+	// eight keeps the duplicates so that the repair stays covered)
+	if rapid.IntRange(0, 7).Draw(t, label+"keepdups") == 0 {
+		return alts
+	}
 	seen := map[string]bool{}
 	var out []model.Val
 	for _, a := range alts {
